@@ -254,8 +254,34 @@ class CallMixin(object):
     if isinstance(callee, V) and callee.ty.k == 'ref' and (callee.ty.name + '.__call__') in self.reg.externs:
       return self.call_extern(st, cx, callee.ty.name + '.__call__', callee, args, kwargs, node)
     if isinstance(callee, V) and callee.ty.k in ('fn', 'any'):
+      cands = (getattr(cx.spec, 'dispatch', None) or {}).get(ast.unparse(node)) if cx.spec is not None and node is not None else None
+      if cands:
+        return self.call_dispatch(st, cx, callee, cands, args, kwargs, node)
       return self.call_opaque(st, cx, callee, args, kwargs, node)
     raise Unsupported('call of %r (line %s)' % (callee, getattr(node, 'lineno', '?')))
+
+  def call_dispatch(self, st, cx, callee, cands, args, kwargs, node):
+    """A call through a stored callable that the sidecar says is one of the listed bound methods: the
+    callee value must provably be one of them, and each is then called through its own contract."""
+    targets = []
+    for e in cands:
+      self.spec_depth += 1
+      try:
+        tv = self.ev1(self.parse_spec(e), st, cx)
+      finally:
+        self.spec_depth -= 1
+      if not isinstance(tv, VBound) or tv.term is None:
+        raise Unsupported('dispatch candidate %s is not a bound repository method' % e)
+      targets.append(tv)
+    self.oblige(st, 'dispatch[%s]@%s' % (cx.qual, getattr(node, 'lineno', '?')), z3.Or(*[callee.t == t.term for t in targets]), node,
+                'the called value is one of %s' % ', '.join(cands))
+    for tv in targets:
+      s2 = st.fork()
+      s2.assume(callee.t == tv.term)
+      if not self.feasible(s2):
+        continue
+      for o in self.call(s2, cx, tv, args, kwargs, node):
+        yield o
 
   def call_opaque(self, st, cx, callee, args, kwargs, node):
     """Calling an opaque value: TypeError unless it stands for something callable."""
@@ -816,6 +842,10 @@ class CallMixin(object):
       return V(BOOL, z3.And(args[0].t > snap.get('$alloc', st.alloc), args[0].t <= st.alloc))
     if name == 'dyn_is':
       return V(BOOL, self.isinstance_(st, args[0], args[1]))
+    if name == 'tag_is':    # the dynamic class test on the object's class tag, whatever the static type says
+      return V(BOOL, z3.And(args[0].t != 0, z3.Or(*[self.dyn_class(st, args[0].t) == self.class_id(c) for c in self.subclasses_of(args[1].name)])))
+    if name == 'cast':      # cast(x, C): x read as a reference to a C (a specification-only view; guard it with dyn_is)
+      return V(Ty('ref', (), args[1].name, True), args[0].t)
     if name in ('dq_lo', 'dq_hi'):
       lo, hi = self.dq_bounds(st, args[0])
       return V(INT, lo if name == 'dq_lo' else hi)
